@@ -26,6 +26,7 @@ S_Two33H1 == {<<R(3, 0), R(3, 0), R(3, 2)>>}          \* hole in the second oute
 S_Two33H2 == {<<R(3, 0), R(3, 0), R(3, 1), R(3, 2)>>}
 S_Two43H2 == {<<R(4, 0), R(3, 0), R(3, 2), R(4, 1)>>} \* holes listed in the opposite order of their outers
 S_One4HH  == {<<R(4, 0), R(3, 1), R(3, 1)>>}          \* two holes in one outer
+S_Notch   == {<<R(4, 0), R(3, 0), R(4, 1)>>}          \* a second outer that can sit in the notch of a concave first outer
 \* larger shapes for sampling (-simulate)
 S_Big == {<<R(7, 0), R(5, 1)>>, <<R(8, 0), R(6, 0), R(5, 1), R(4, 2)>>, <<R(6, 0), R(5, 0), R(7, 0), R(4, 2), R(3, 2), R(5, 3)>>,
           <<R(9, 0), R(4, 1), R(5, 1), R(3, 1)>>, <<R(5, 0), R(6, 0), R(7, 0)>>, <<R(12, 0), R(9, 1)>>}
